@@ -11,6 +11,8 @@ pub mod c11;
 pub mod c12;
 pub mod c13;
 pub mod c14;
+#[cfg(feature = "openapi")]
+pub mod c15;
 pub mod c17;
 pub mod c18;
 pub mod c19;
@@ -37,6 +39,8 @@ pub fn dispatch(args: &Args, rep: &mut Report) -> bool {
         "c12" => c12::run(args, rep),
         "c13" => c13::run(args, rep),
         "c14" => c14::run(args, rep),
+        #[cfg(feature = "openapi")]
+        "c15" => c15::run(args, rep),
         "c17" => c17::run(args, rep),
         "c18" => c18::run(args, rep),
         "c18child" => c18::child(args),
